@@ -19,6 +19,8 @@ def decStmt (j : Json) : GStmt :=
     | "parenSingle" => .str '\'' true false (strD j "text")
     | "parenDouble" => .str '"' true false (strD j "text")
     | "parenSingleClosure" => .str '\'' true true (strD j "text")
+    | "multi" => .strs false (strs j "texts")
+    | "parenMulti" => .strs true (strs j "texts")
     | _ => .other k
   { conf := strD j "conf", nota := n }
 
